@@ -354,7 +354,7 @@ func HashAccessFunction(name string) ZlispUserFunction {
 		switch name {
 		case "hget":
 			if len(args) == 3 {
-				return hash.HashGetDefault(env, args[1], args[2])
+				return hash.HashGetDefault(env, hashKeyOf(args[1]), args[2])
 			}
 			return hash.HashGet(env, args[1])
 		case "hset":
@@ -420,7 +420,7 @@ func HashColonFunction(env *Zlisp, name string, args []Sexp) (Sexp, error) {
 	}
 
 	if len(args) == 3 {
-		return hash.HashGetDefault(env, args[0], args[2])
+		return hash.HashGetDefault(env, hashKeyOf(args[0]), args[2])
 	}
 	return hash.HashGet(env, args[0])
 }
